@@ -773,6 +773,18 @@ func init() {
 					p.Sched.Starve = []string{"task:rec/configuration", "task:rec/configuration", "task:rec/proposal", "op/configurations/"}[g.pick(4)]
 				}
 			}
+			if g.chance(1, 5) {
+				// (round 2) the apply of a change is a push and two store writes (applied values, then the record): a failed
+				// or lost write, or a stop of the process, right after the device's answer, and a device restart later on -
+				// what is re-sent then comes from what those writes left behind
+				p.Profile += "+store-faults"
+				for i := 0; i <= g.pick(2); i++ {
+					t := p.Knobs.Targets[g.pick(len(p.Knobs.Targets))]
+					p.Faults = append(p.Faults, Fault{Kind: []string{"op-unavail", "op-acklost", "crash"}[g.pick(3)], On: "after-devset", Target: t, N: 1 + g.pick(6), Burst: g.pick(3)})
+				}
+				t := p.Knobs.Targets[g.pick(len(p.Knobs.Targets))]
+				p.Faults = append(p.Faults, Fault{Kind: "dev-restart", Target: t, On: "effect", N: 80 + g.pick(160)})
+			}
 			g.swarmExtras(p, true, true)
 			return p
 		},
